@@ -224,6 +224,17 @@ func (w *Writer) Write(fr Frame) error {
 		}
 
 		encodeMessageInFrame(fr, mp)
+
+		// the payload has just been regenerated from the decoded message and may differ
+		// from the one the frame was received with (trailing zeros, unknown extension
+		// bytes, bytes after a string terminator): the checksum must correspond to
+		// the payload that is actually sent
+		switch ff := fr.(type) {
+		case *V1Frame:
+			ff.Checksum = ff.GenerateChecksum(mp.CRCExtra())
+		case *V2Frame:
+			ff.Checksum = ff.GenerateChecksum(mp.CRCExtra())
+		}
 	}
 
 	return w.writeFrameInner(fr)
